@@ -82,7 +82,7 @@ def items():
     feats = " ".join(norm(m.group(0)) for m in re.finditer(r"\[features\][^\[]*", ca))
     out["Cargo.toml profiles/features"] = (prof + " | " + feats, ALL)
     mr = read("src/main.rs")
-    out["main.rs"] = (norm(mr), ["C15", "C16"])
+    out["main.rs"] = (norm(mr), ["C03", "C05", "C09", "C11", "C13", "C14", "C15", "C16"])     # everything observed at process level
     return out
 
 
